@@ -151,6 +151,9 @@ enum Letter {
     TcpConnect(usize, AddrSel, u16),
     /// connect that is given up (future dropped) right after its SYN has been delivered
     TcpConnectAbandon(usize, AddrSel, u16),
+    /// connect whose SYN is delivered, after which the listener it reached is closed before
+    /// anything else moves (the half-open child has to go with it)
+    TcpConnectListenerCloses(usize, AddrSel, u16),
     Close(usize), // k-th held (non-probe) object
 }
 
@@ -527,11 +530,58 @@ impl SockSys {
                 let ip = self.a.get(a);
                 self.do_connect_abandon(h, ip, p)
             }
+            Letter::TcpConnectListenerCloses(h, a, p) => {
+                let ip = self.a.get(a);
+                self.do_connect_listener_closes(h, ip, p)
+            }
             Letter::Close(k) => {
                 let id = self.held_ids()[k];
                 self.do_close(id)
             }
         }
+    }
+
+    /// The SYN of a connect is handed to the destination host, then the listener it matched
+    /// (if any, and if the history still holds it) is closed before the handshake goes on.
+    /// Whatever the connect returns, the tables must hold exactly the model's live sockets
+    /// afterwards and nothing may be waiting in any accept queue.
+    fn do_connect_listener_closes(&mut self, host: usize, ip: IpAddr, port: u16) -> Result<(), Violation> {
+        let what = format!("tcp-connect host{} -> {}:{}, listener closed after the SYN", host, ip, port);
+        let hosts = self.hosts;
+        let lid = self.a.owner(host, ip).and_then(|dh| self.find_listener(dh, ip, port)).filter(|&l| self.model[l].held);
+        let mut ex = Executor::new();
+        let sa = SocketAddr::new(ip, port);
+        let out: Rc<RefCell<Option<std::io::Result<TcpStream>>>> = Rc::new(RefCell::new(None));
+        let o = out.clone();
+        ex.spawn(host as u32, async move {
+            let r = TcpStream::connect(sa).await;
+            *o.borrow_mut() = Some(r);
+        });
+        ex.run_until_stalled(1000, |t| turmoil_net::set_current(hosts[t as usize]));
+        let mut pk = vec![];
+        self.guard.egress_all(&mut pk);
+        for p in pk {
+            self.guard.deliver(p);
+        }
+        if let Some(l) = lid {
+            let lh = self.model[l].host;
+            self.cur(lh);
+            let h = std::mem::replace(&mut self.handles[l], Handle::None);
+            drop(h);
+            self.model[l].held = false;
+            self.model[l].alive = false;
+        }
+        self.pump(&mut ex, 16);
+        // the connecting end goes away as well, whatever became of it
+        self.cur(host);
+        let r = out.borrow_mut().take();
+        drop(r);
+        drop(ex);
+        let mut ex = Executor::new();
+        self.pump(&mut ex, 12);
+        self.log.push(format!("{what} (listener closed: {})", lid.is_some()));
+        self.check_no_stray_accept(&what, None)?;
+        Ok(())
     }
 
     /// A connect whose future is dropped as soon as its SYN has been handed to the
@@ -590,6 +640,7 @@ impl SockSys {
             }
             v.push(Letter::TcpConnect(1, AddrSel::A2, self.cfg.ports[0]));
             v.push(Letter::TcpConnectAbandon(1, AddrSel::A2, self.cfg.ports[0]));
+            v.push(Letter::TcpConnectListenerCloses(1, AddrSel::A2, self.cfg.ports[0]));
             if self.cfg.h2_binds {
                 v.push(Letter::TcpConnect(0, AddrSel::B1, self.cfg.ports[0]));
             }
@@ -790,6 +841,7 @@ impl System for SockSys {
                     Letter::BindUdp(h, s, p) => format!("host{h}: UdpSocket::bind({}:{p})", self.a.get(s)),
                     Letter::Listen(h, s, p) => format!("host{h}: TcpListener::bind({}:{p})", self.a.get(s)),
                     Letter::TcpConnect(h, s, p) => format!("host{h}: TcpStream::connect({}:{p}) + accept", self.a.get(s)),
+                    Letter::TcpConnectListenerCloses(h, s, p) => format!("host{h}: TcpStream::connect({}:{p}), SYN delivered, then the listener it reached is closed", self.a.get(s)),
                     Letter::TcpConnectAbandon(h, s, p) => format!("host{h}: TcpStream::connect({}:{p}) dropped once its SYN is delivered", self.a.get(s)),
                     _ => format!("{l:?}"),
                 }
